@@ -75,21 +75,40 @@ Definition gen_block (time : Z) : block :=
 Definition mainnet : chain_params := nth 0 chains (nth 3 chains (nth 3 chains (nth 3 chains (nth 3 chains
   {| cp_name := []; cp_pow_limit := 0; cp_max_money := 0; cp_magic := []; cp_pubkey_addr := 0; cp_script_addr := 0; cp_secret_key := 0; cp_hrp := [] |})))).
 
+(* a toy "hash" with 32-byte digests (the theorems hold for every such H); the genesis block
+   itself runs with the real hash through corpus/C16/genesis.case on every check *)
+Definition H0 (x : bytes) : bytes := firstn 32 (x ++ zeros 32).
+Definition toy_block (time : Z) : block :=
+  {| b_hdr := {| h_version := 1; h_prev := zeros 32; h_merkle := H0 (wire_tx_stripped (gen_cb gen_script 5000000000));
+                 h_time := time; h_bits := 486604799; h_nonce := 0 |};
+     b_vtx := [gen_cb gen_script 5000000000] |}.
+
 Example C16_nonvacuous :
-  (* the genesis block passes with proof of work and merkle check, and is valid *)
-  check_block sha256d mainnet (gen_block 1231006505) true true 1231006505 = Ok tt /\
-  valid_blockb sha256d mainnet 1231006505 true true (gen_block 1231006505) = true /\
-  (* the timestamp boundary: more than two hours ahead of the clock is refused *)
-  check_block sha256d mainnet (gen_block 1231006505) true true (1231006505 - 7201) = Err CheckHeaderErr /\
+  (forall x, length (H0 x) = 32%nat) /\
+  (* a one-transaction block with the right merkle root passes; with another root it does not *)
+  check_block H0 mainnet (toy_block 1000) false true 1000 = Ok tt /\
+  valid_blockb H0 mainnet 1000 false true (toy_block 1000) = true /\
+  check_block H0 mainnet {| b_hdr := b_hdr (gen_block 1000); b_vtx := b_vtx (toy_block 1000) |} false true 1000 = Err CheckBlockErr /\
+  (* the genesis header has the work it claims (real double SHA-256) *)
+  check_block_header sha256d mainnet (b_hdr (gen_block 1231006505)) true 1231006505 = Ok tt /\
+  (* the timestamp boundary: exactly two hours ahead of the clock passes, one second more does not *)
+  check_block_header sha256d mainnet (b_hdr (gen_block 1231006505)) false (1231006505 - 7200) = Ok tt /\
+  check_block_header sha256d mainnet (b_hdr (gen_block 1231006505)) false (1231006505 - 7201) = Err CheckHeaderErr /\
   (* a changed header breaks the proof of work *)
-  check_block sha256d mainnet (gen_block 1231006506) true true 1231006506 = Err CheckPowErr /\
+  check_block_header sha256d mainnet (b_hdr (gen_block 1231006506)) true 1231006506 = Err CheckPowErr /\
+  (* an empty block is refused, whatever its header says *)
+  check_block sha256d mainnet {| b_hdr := b_hdr (gen_block 0); b_vtx := [] |} false false 0 = Err CheckBlockErr /\
   (* the coinbase itself is checked: 1-byte script, value above the money supply *)
   check_tx mainnet (gen_cb gen_script 5000000000) = Ok tt /\
   check_tx mainnet (gen_cb [x51] 5000000000) = Err CheckTxErr /\
   check_tx mainnet (gen_cb gen_script 2100000000000001) = Err CheckTxErr /\
   valid_txb mainnet (gen_cb gen_script 2100000000000000) = true /\
   valid_txb mainnet (gen_cb gen_script 2100000000000001) = false.
-Proof. repeat split; vm_compute; reflexivity. Qed.
+Proof.
+  split.
+  - intros x. unfold H0. rewrite firstn_length, app_length. unfold zeros. rewrite repeat_length. lia.
+  - repeat split; vm_compute; reflexivity.
+Qed.
 
 Print Assumptions C16_check_tx.
 Print Assumptions C16_check_tx_errors.
